@@ -129,6 +129,7 @@ type verifVCS struct {
 	resultPath                                         string
 	otherEntry                                         verifEntry
 	calls                                              int // every VCS/ChangeOps call
+	effects                                            int // workspace creations, writes, mode changes, commits
 }
 
 type verifCops struct {
@@ -146,6 +147,7 @@ func (v *verifVCS) fail(what string) bool { return v.faults && verifNondetBool("
 
 func (v *verifVCS) GetChangeOps(ctx context.Context) (ChangeOps, error) {
 	v.calls++
+	v.effects++
 	v.getCalls++
 	if v.attempts > 0 && !v.lastRetriable {
 		v.retriedAfterNonRetriable = true
@@ -189,6 +191,7 @@ var releaseManifestPath = "out/" + ManifestFile
 
 func (c *verifCops) WriteOrCreateFiles(ctx context.Context, files ...*File) error {
 	c.vcs.calls++
+	c.vcs.effects++
 	if c.vcs.fail("write") {
 		return verifErrIO
 	}
@@ -214,6 +217,7 @@ func (c *verifCops) ReadFile(ctx context.Context, path string) ([]byte, error) {
 
 func (c *verifCops) SetBinaryWritable(ctx context.Context, path string) error {
 	c.vcs.calls++
+	c.vcs.effects++
 	if c.vcs.fail("setbinary") {
 		return verifErrIO
 	}
@@ -232,6 +236,7 @@ func (c *verifCops) Destroy() {
 
 func (c *verifCops) TryCommit(ctx context.Context) (any, error) {
 	c.vcs.calls++
+	c.vcs.effects++
 	if c.vcs.fail("commit") {
 		return nil, verifErrIO
 	}
